@@ -29,3 +29,8 @@ CHECKS['C20'] = dict(
     text='All 9.2k rows of media type x transport charset x XML part x meta x str/bytes x case are enumerated and compared field by field with a 25-line decision procedure written from the getEncodingInfo docstring; generated documents for detectXMLEncoding (incl. stream position), getMetaInfo and encodingByMediaType. The table part is exhaustive; the sniffer part is exploration.',
     note='Trusted: the reference procedure, email.message for the stub response, codecs.lookup for name comparison; documents >= 4 characters; BOM in str documents = byte-valued characters.',
 )
+CHECKS['C18'] = dict(
+    technique='property-based testing (Hypothesis) with exact arithmetic oracles (fractions.Fraction, own HSL formulas, own decimal reader) + exhaustive enumeration of short/long hash colours and colour keywords',
+    text='Generated decimal literals x units x omitLeadingZero compared exactly as rationals; all 4096 short hashes, a stratified sample (thorough: all 16.7M) of long hashes, colour functions and keywords re-computed independently; strings/URLs round-tripped character for character; component lists keep separators. Exploration (hash table exhaustive in thorough).',
+    note='Trusted: Fraction arithmetic, my HSL formulas (CSS3 algorithm), a hand-written table of the 17 CSS 2.1 colours; tolerance 1 per channel for percentages/HSL; content with backslash, edge-escaped bare URLs and |x|>=2^33 fractions are listed findings probed by witnesses.',
+)
